@@ -174,7 +174,27 @@ pub fn mutate(rng: &mut Rng, ty: &str, canon: &[u8]) -> Vec<u8> {
     let mut bs = canon.to_vec();
     let nfields = kinds(ty).len();
     let dyn_slots: Vec<usize> = kinds(ty).chars().enumerate().filter(|(_, k)| *k == 'B').map(|(i, _)| i).collect();
-    match rng.below(14) {
+    match rng.below(15) {
+        14 => {
+            // a word of 2^16 / 2^24 or more in an offset or length position, inside a buffer large
+            // enough (70 KB of zero padding) that a decoder mis-assembling the four low bytes
+            // would land in bounds
+            if !dyn_slots.is_empty() {
+                let s = *rng.pick(&dyn_slots);
+                let target = if rng.chance(1, 2) {
+                    s * 32
+                } else if s * 32 + 32 <= bs.len() {
+                    u32::from_be_bytes([bs[s * 32 + 28], bs[s * 32 + 29], bs[s * 32 + 30], bs[s * 32 + 31]]) as usize
+                } else {
+                    s * 32
+                };
+                if target + 32 <= bs.len() {
+                    let which = 28 + rng.below(2) as usize;
+                    bs[target + which] = *rng.pick(&[1u8, 1, 2, 0x80]);
+                    bs.extend(vec![0u8; 70_000]);
+                }
+            }
+        }
         0 => {
             // truncate
             let k = rng.below(bs.len() as u64 + 1) as usize;
